@@ -197,13 +197,12 @@ def r14c(ctx: Context, rule_id: str = "R14c") -> None:
                     prop_of_field[node.value.attr] = name
     # (iii) list <- property in __apply_configuration
     list_of_prop: Dict[str, str] = {}
-    for node in walk_local(apply_one.node):
-        if isinstance(node, ast.If) and isinstance(node.test, ast.Attribute):
-            prop = node.test.attr
-            for stmt in node.body:
-                for call in ast.walk(stmt):
-                    if isinstance(call, ast.Call) and isinstance(call.func, ast.Attribute) and call.func.attr == "append" and isinstance(call.func.value, ast.Attribute):
-                        list_of_prop[prop] = call.func.value.attr
+    for call in walk_local(apply_one.node):
+        if isinstance(call, ast.Call) and isinstance(call.func, ast.Attribute) and call.func.attr == "append" and isinstance(call.func.value, ast.Attribute):
+            # the innermost property test that holds when the append runs (if-block or early-return form)
+            tests = [t for t, pol in guards_of(apply_one.node, call) if pol and isinstance(t, ast.Attribute)]
+            if tests:
+                list_of_prop[tests[-1].attr] = call.func.value.attr
     # lists reset in apply_configuration
     reset: Set[str] = set()
     for node in walk_local(apply_all.node):
